@@ -47,7 +47,7 @@ func htmlSafe(s string, allowedTags []string) (bool, string) {
 
 var c03Modes = []string{"", "true", "false", "contextual"}
 
-var c03Paths = []string{"direct", "let-value", "let-content", "param-value", "param-content", "msg-placeholder", "data-all", "nested-content"}
+var c03Paths = []string{"direct", "let-value", "let-content", "param-value", "param-content", "msg-placeholder", "data-all", "nested-content", "print-after-call", "print-in-loop-around-call"}
 
 type c03Chain []ref.Dir
 
@@ -156,6 +156,16 @@ func c03Program(path string, nsMode, tMode, cNsMode, cTMode string, ch c03Chain)
 		callee.Params = []ref.ParamDecl{{Name: "v"}}
 		callee.Body = []ref.Node{lb, pr(v, ch), rb}
 		main.Body = []ref.Node{&ref.CallT{Target: "nb.c", NameSrc: "nb.c", DataAll: true, SelfClose: true}}
+	case "print-after-call":
+		// the caller prints after a callee (with its own mode) has run
+		callee.Params = []ref.ParamDecl{{Name: "p"}}
+		callee.Body = []ref.Node{&ref.Raw{Text: "("}, pr(&ref.DataRef{Name: "p"}, nil), &ref.Raw{Text: ")"}}
+		main.Body = []ref.Node{&ref.CallT{Target: "nb.c", NameSrc: "nb.c", Params: []ref.Param{{Name: "p", E: &ref.Lit{V: ref.Str("k")}}}}, lb, pr(v, ch), rb}
+	case "print-in-loop-around-call":
+		callee.Params = []ref.ParamDecl{{Name: "p"}}
+		callee.Body = []ref.Node{&ref.Raw{Text: "("}, pr(&ref.DataRef{Name: "p"}, nil), &ref.Raw{Text: ")"}}
+		main.Body = []ref.Node{lb, &ref.Foreach{Var: "i", List: &ref.ListLit{Items: []ref.Expr{&ref.Lit{V: ref.Int(1)}, &ref.Lit{V: ref.Int(2)}}}, Keyword: "foreach",
+			Body: []ref.Node{pr(v, ch), &ref.CallT{Target: "nb.c", NameSrc: "nb.c", Params: []ref.Param{{Name: "p", E: &ref.DataRef{Name: "i"}}}}}}, rb}
 	case "nested-content":
 		// content block inside a content block inside a call: three levels of buffering
 		callee.Params = []ref.ParamDecl{{Name: "p"}}
